@@ -661,11 +661,16 @@ def explore_xm3(ctx, shard, judge, acc, orders, relevant, outcome):
                     acc.viol[key]["count"] += 1
                     continue
                 w = {"seqs": [list(s) for s in seqs], "second_first": sf, "key": key}
-                if len(seqs) > 1 and culprit and culprit[0] == X.A and culprit[1][:1] == "m":
-                    one = [list(seqs[int(culprit[1][1:])])]
-                    r1, _, _ = judge_xm3(one, sf, judge)
-                    if any(k2 == key for k2, _, _ in r1):
-                        w["seqs"] = one
+                if len(seqs) > 1:                       # a batch: look for a one-program witness of the same key
+                    if culprit and culprit[0] == X.A and culprit[1][:1] == "m" and culprit[1][1:].isdigit():
+                        cands = [[list(seqs[int(culprit[1][1:])])]]
+                    else:
+                        cands = [[[]], [list(seqs[0])]]
+                    for one in cands:
+                        r1, _, _ = judge_xm3(one, sf, judge)
+                        if any(k2 == key for k2, _, _ in r1):
+                            w["seqs"] = one
+                            break
                 w["program"] = [describe(s) for s in w["seqs"]][:3]
                 acc.violation(key, w, msg)
             if len(seqs) == 1 and len(seqs[0]) == 2 and seqs[0][0] == seqs[0][1] and relevant(X.item_of(seqs[0][0])):
